@@ -122,10 +122,14 @@ def gen_scenario(rng: Rng, world: dict) -> dict:
     if fr < 0.12:
         sc["fault"] = "task_exc"
         sc["victims"] = [os.path.basename(rng.choice(files))]
-    elif fr < 0.2:
+    elif fr < 0.24:
         sc["fault"] = "read_err"
         v = os.path.basename(rng.choice(files))
-        sc["plan"] = [{"cls": "open_r", "path": v, "nth": 0, "kind": "err", "errno": rng.choice(["EIO", "EACCES"])}]
+        if rng.chance(0.75):
+            # (ENOENT: the file vanished between discovery and processing)
+            sc["plan"] = [{"cls": "open_r", "path": v, "nth": rng.choice([0, 0, 1]), "kind": "err", "errno": rng.choice(["EIO", "EACCES", "ENOENT", "ENOENT"])}]
+        else:
+            sc["plan"] = [{"cls": "open_r", "path": v, "repeat": True, "kind": "short_read", "bytes": rng.choice([5, 40, 200])}]
     return sc
 
 
